@@ -160,18 +160,45 @@ type Result struct {
 	Pairs     map[string]struct{}
 	States    map[uint64]struct{}
 	LeakPanic string
+	outside   bool // a simulator primitive was reached outside a simulation
 }
 
 var theT *testing.T
 
 // RunOne executes one run of w on the given tape.
 func RunOne(w *World, tape *sim.Tape, focus string, tier string, trace bool) (res *Result) {
+	res = runOne(w, tape, focus, tier, trace, w.Concurrent)
+	if res.outside {
+		// A world that normally runs without the scheduler (single-threaded containers) has reached
+		// a synchronisation primitive inside the library: the code under test now uses sync, atomic
+		// or friends. Run it again under the scheduler, on a tape derived from the choices made so
+		// far (so that the whole thing stays a function of the original tape, which is what the
+		// replay file records).
+		vals := tape.Values()
+		parts := make([]uint64, 0, len(vals)+1)
+		parts = append(parts, 0x5eed)
+		for _, v := range vals {
+			parts = append(parts, uint64(v))
+		}
+		again := runOne(w, sim.NewGenTape(sim.Mix(parts...)), focus, tier, trace, true)
+		again.Tape, again.Kinds = vals, tape.Rec
+		again.Probes["ran-under-scheduler-after-reaching-a-sync-primitive"]++
+		return again
+	}
+	return res
+}
+
+func runOne(w *World, tape *sim.Tape, focus string, tier string, trace bool, scheduled bool) (res *Result) {
 	r := &R{World: w, T: tape, Focus: focus, Trace: trace, Tier: tier, Probes: map[string]int{}, Faults: map[string]int{}, hist: 14695981039346656037}
 	res = &Result{Probes: r.Probes, Faults: r.Faults}
-	if !w.Concurrent {
+	if !scheduled {
 		func() {
 			defer func() {
 				if p := recover(); p != nil {
+					if _, ok := p.(sim.OutsideSim); ok {
+						res.outside = true
+						return
+					}
 					r.Violate(focus, "harness-panic", "panic escaped the world: %v", p)
 				}
 			}()
@@ -181,6 +208,9 @@ func RunOne(w *World, tape *sim.Tape, focus string, tier string, trace bool) (re
 		res.Verdict = "done"
 	} else {
 		cfg := sim.Config{Trace: trace, MaxSteps: w.MaxSteps + 3000, SpinLimit: 2500}
+		if !w.Concurrent {
+			cfg.MaxSteps = 1 << 22 // a whole container history, every synchronisation operation a step
+		}
 		cfg.Strategy = tape.Choose(sim.NumStrategies, "strategy")
 		cfg.PostYield = tape.Choose(3, "postyield") == 2
 		if cfg.Strategy == sim.StratPCT {
